@@ -282,3 +282,62 @@ def assemble(arg: dict) -> dict:
 def assemble_many(arg: dict) -> list[dict]:
     """arg['items'] = list of assemble() arguments; used to batch tiny programs"""
     return [assemble(a) for a in arg["items"]]
+
+
+# ------------------------------------------------------------------------------------------
+# expressions (C06)
+# ------------------------------------------------------------------------------------------
+def to_wide(n: int) -> list[int]:
+    n &= (1 << 48) - 1
+    return [(n >> (12 * k)) & 0xFFF for k in range(4)]
+
+
+def _bytes_of(o: dict, skip: int, n: int | None = None):
+    bs = [b for _, blk in o["calls"] for b in blk]
+    return bs[skip:] if n is None else bs[skip:skip + n]
+
+
+def expr_contexts(arg: dict) -> list[dict]:
+    """Evaluate one expression text in each requested context.
+    arg: {"text", "env": {name: int}, "ctxs": [..]} -> [{"ctx", "ok", "val"|"bytes", "err"}]"""
+    from a816.parse.ast.expression import eval_expression_str
+    from a816.symbols import Resolver
+    text = arg["text"]
+    pre = "".join(f"{k} := {v}\n" for k, v in arg["env"].items())
+    out = []
+    for ctx in arg["ctxs"]:
+        if ctx == "eval":
+            r = Resolver()
+            for k, v in arg["env"].items():
+                r.current_scope.add_symbol(k, v)
+            try:
+                v = eval_expression_str(text, r)
+                if isinstance(v, int) and abs(v) < (1 << 46):
+                    out.append({"ctx": ctx, "ok": True, "val": to_wide(v)})
+                else:
+                    out.append({"ctx": ctx, "ok": True, "val": [-1, -1, -1, -1], "big": str(v)})
+            except BaseException as e:  # noqa: BLE001
+                out.append({"ctx": ctx, "ok": False, "val": [0, 0, 0, 0], "err": f"{type(e).__name__}: {e}"})
+            continue
+        skip = 0
+        if ctx == "imm16":
+            body, skip = f"lda.w #{text}\n", 1
+        elif ctx == "long24":
+            body, skip = f"lda.l {text}\n", 1
+        elif ctx in ("dl", "dw", "db", "pointer"):
+            body = f".{ctx} {text}\n"
+        elif ctx == "sym":
+            body = f"val = {text}\n.dl val\n"
+        elif ctx == "assign":
+            body = f"val := {text}\n.dl val\n"
+        elif ctx == "macro":
+            body = f".macro mm(p) {{\n.dl p\n}}\nmm({text})\n"
+        elif ctx == "if":
+            body = f".if {text} {{\n.db 1\n}} else {{\n.db 0\n}}\n"
+        elif ctx == "for":
+            body = f".for k := 0, {text} {{\n.db k\n}}\n"
+        else:
+            raise ValueError(ctx)
+        o = assemble({"src": pre + "*=0x008000\n" + body})
+        out.append({"ctx": ctx, "ok": bool(o["ok"]), "bytes": _bytes_of(o, skip) if o["ok"] else [], "err": o["err"]})
+    return out
